@@ -86,7 +86,8 @@ impl TieredCache {
         let l2 = if let Some(l2_dir) = config.l2_dir {
             let cache: HybridCache<String, Vec<u8>> = HybridCacheBuilder::new()
                 .memory(config.l1_size)
-                .with_weighter(|_key: &String, value: &Vec<u8>| value.len())
+                // foyer asserts a non-zero weight: an empty object must still weigh something
+                .with_weighter(|_key: &String, value: &Vec<u8>| value.len().max(1))
                 .with_eviction_config(LruConfig::default())
                 .storage(Engine::Large)
                 .with_device_options(
